@@ -55,6 +55,11 @@ def gen_program(rng):
     for i, n in enumerate(tused):
         lines.append("let t%d: typeof %s | undefined; void t%d;" % (i, n, i))
     used = used + tused
+    if rng.random() < 0.25:
+        # things that look like JSX to a token scan but are not: generic arrows, comparisons, type arguments, type assertions of a tsx file
+        lines.append(rng.choice(["export const id%d = <T,>(x: T) => x;", "export const cmp%d = (a: number, b: number) => a < b && b > a;",
+                                 "export function ta%d() { return f9<string>('x'); }", "export const gen%d = <T extends object>(x: T): T => x;",
+                                 "export type Box%d<T> = { v: T };"]) % rng.randrange(100))
     if he:
         lines.append("void (<div x={1}>t</div>);")
     if hf:
